@@ -1,0 +1,8 @@
+//go:build !verif
+
+// Package verifhook provides scheduling points for the verification harness.
+// Without the build tag "verif" every function is an empty stub.
+package verifhook
+
+// Yield marks a point where the verification harness may hold the calling goroutine.
+func Yield(_ string) {}
